@@ -33,7 +33,7 @@ def Statement_npz_roundtrip (α : Type) (axesOk : List Int → Bool) : Prop :=
 — same format class, shape, fill value, compressed axes, coords/indices/indptr and data — for every
 well-formed `x` that is not `Excluded`: every COO of any rank, and every GCXS whose class `save_npz`
 recognises and whose `compressed_axes` it can store. -/
-theorem npz_roundtrip_partial (axesOk : List Int → Bool) (hnil : axesOk [] = true) (x : Arr α)
+theorem npz_roundtrip_partial (axesOk : List Int → Bool) (x : Arr α)
     (hwf : x.WF axesOk) (hex : ¬ Excluded x) : roundtrip axesOk x = .ok x.norm := by
   cases x with
   | coo s c d f =>
@@ -51,47 +51,47 @@ theorem npz_roundtrip_partial (axesOk : List Int → Bool) (hnil : axesOk [] = t
     have hw := writeList_gcxs e s d i p ca f hcls
     cases ca with
     | some l =>
-      obtain ⟨hl0, hl1, hl2, hl3⟩ := hwf
+      obtain ⟨hl0, hl1, hl2, hl3, hl4⟩ := hwf
       have hdec : decodeAxes l = some l := by simp [decodeAxes, hl0]
+      have hrange : ¬ ∃ x, x ∈ l ∧ (0 ≤ x → (s.length : Int) ≤ x) := by
+        intro ⟨a, ha, hb⟩
+        have := hl4 a ha
+        have := hb this.1
+        omega
       simp [roundtrip, save, hw, collect, Arr.attr, encAxes, load, Gen.npzRequire, loadFrom, fetchAll, lookup,
-        construct, gcxsCtor, checkAxes, normAxes, hdec, hl1, hl2, hl3, Arr.norm]
+        construct, gcxsCtor, checkAxes, normAxes, hdec, hl0, hl1, hl2, hl3, hrange, Arr.norm]
     | none =>
-      have hflags : Gen.npzNoneAxesAsEmpty = true ∧ (Gen.npzEmptyAxesAsNone = true ∨ s.length = 1) := by
+      have hflags : Gen.npzNoneAxesAsEmpty = true ∧ Gen.npzEmptyAxesAsNone = true := by
         apply Classical.byContradiction
         intro hn
         exact hex (Or.inr ⟨rfl, hn⟩)
-      obtain ⟨h1, h2⟩ := hflags
+      obtain ⟨h1, h3⟩ := hflags
       have henc : (encAxes none : Payload α) = .ints [] := by simp [encAxes, h1]
-      by_cases h3 : Gen.npzEmptyAxesAsNone = true
-      · have hdec : decodeAxes [] = none := by simp [decodeAxes, h3]
-        simp [roundtrip, save, hw, collect, Arr.attr, henc, load, Gen.npzRequire, loadFrom, fetchAll, lookup,
-          construct, gcxsCtor, checkAxes, normAxes, hdec, Arr.norm]
-      · have hs1 : s.length = 1 := by rcases h2 with h2 | h2; exact absurd h2 h3; exact h2
-        have hdec : decodeAxes [] = some [] := by simp [decodeAxes, h3]
-        simp [roundtrip, save, hw, collect, Arr.attr, henc, load, Gen.npzRequire, loadFrom, fetchAll, lookup,
-          construct, gcxsCtor, checkAxes, normAxes, hdec, hs1, hnil, Arr.norm]
+      have hdec : decodeAxes [] = none := by simp [decodeAxes, h3]
+      simp [roundtrip, save, hw, collect, Arr.attr, henc, load, Gen.npzRequire, loadFrom, fetchAll, lookup,
+        construct, gcxsCtor, checkAxes, normAxes, hdec, Arr.norm]
 
 /-- **npz_roundtrip_coo.** COO arrays of every rank (0-d included), pattern, fill value: exact round trip,
 unconditionally. -/
-theorem npz_roundtrip_coo (axesOk : List Int → Bool) (hnil : axesOk [] = true) (s : List Int) (c : Mat)
+theorem npz_roundtrip_coo (axesOk : List Int → Bool) (s : List Int) (c : Mat)
     (d : List α) (f : α) (hwf : (Arr.coo s c d f).WF axesOk) :
     roundtrip axesOk (Arr.coo s c d f) = .ok (Arr.coo s c d f) :=
-  npz_roundtrip_partial axesOk hnil _ hwf (fun h => h)
+  npz_roundtrip_partial axesOk _ hwf (fun h => h)
 
 /-- **npz_roundtrip** (full statement, conditional on the switches): once `save_npz` recognises GCXS
 subclasses and `None` axes are stored as an empty array and read back as `None`, nothing is excluded. -/
-theorem npz_roundtrip (axesOk : List Int → Bool) (hnil : axesOk [] = true)
+theorem npz_roundtrip (axesOk : List Int → Bool)
     (h1 : gcxsExactTest = false) (h2 : Gen.npzNoneAxesAsEmpty = true) (h3 : Gen.npzEmptyAxesAsNone = true) :
     Statement_npz_roundtrip α axesOk := by
   intro x hwf
-  apply npz_roundtrip_partial axesOk hnil x hwf
+  apply npz_roundtrip_partial axesOk x hwf
   cases x with
   | coo s c d f => exact fun h => h
   | gcxs e s d i p ca f =>
     intro h
     rcases h with ⟨_, h⟩ | ⟨_, h⟩
     · rw [h1] at h; exact absurd h (by simp)
-    · exact h ⟨h2, Or.inl h3⟩
+    · exact h ⟨h2, h3⟩
 
 /-- a 1-d GCXS array: `[0, 5, 0, 7]`, `compressed_axes = None`, `indptr = ()` -/
 def w1d : Arr Int := .gcxs true [4] [5, 7] [1, 3] [] none 0
